@@ -185,19 +185,19 @@ def extent_equivariance(chk, repo, clause):
         if not repo.has_func(f'propagate.{fn}'):
             chk.undecided(clause, 'N-equivariance', f'propagate.{fn}', 'axis swap', 'helper no longer exists under this name', '')
             continue
-        f, paths, _ = analyse(repo, f'propagate.{fn}')
+        f, paths, _ = analyse(repo, f'propagate.{fn}', inline=extent_inline(repo))
         calls = [c for p in paths for c in p.calls('util.boundary')]
         if not calls:
             chk.undecided(clause, 'N-equivariance', f'propagate.{fn}', 'axis swap', 'not computed from lentil.boundary', f.loc())
             continue
         bq = Tup([nf.index(calls[0].result, C(i)) for i in range(4)])
         xs = Tup([nf.index(nf.attr(S('x'), 'shape'), C(0)), nf.index(nf.attr(S('x'), 'shape'), C(1))], 'vec')
-        equivariant(chk, clause, repo, f'propagate.{fn}', None, pairs=[xs], quads=[bq])
+        equivariant(chk, clause, repo, f'propagate.{fn}', None, pairs=[xs], quads=[bq], inline=extent_inline(repo))
 
 
 def mask_window_identities(chk, repo, clause):
     """_mask_shape = extent lengths; _mask_shift = array_center(boundary) - floor(shape/2)."""
-    f, p = one_path(repo, 'propagate._mask_shape')
+    f, p = one_path(repo, 'propagate._mask_shape', inline=extent_inline(repo))
     calls = p.calls('util.boundary')
     if not calls:
         # the window has to reach from the first to the last masked row / column: anything that is not derived from the
@@ -208,7 +208,7 @@ def mask_window_identities(chk, repo, clause):
         bq = [nf.index(calls[0].result, C(i)) for i in range(4)]
         chk.ob(clause, 'N-identity', 'propagate._mask_shape', 'bounding-box lengths',
                p.ret == Tup([bq[1] - bq[0] + 1, bq[3] - bq[2] + 1]), f'returns {fmt(p.ret)}', f.loc(p.node))
-    f, p = one_path(repo, 'propagate._mask_shift')
+    f, p = one_path(repo, 'propagate._mask_shift', inline=extent_inline(repo))
     calls = p.calls('util.boundary')
     if not calls:
         chk.ob(clause, 'N-identity', 'propagate._mask_shift', 'centre of the bounding box relative to floor(n/2)', False,
